@@ -12,10 +12,10 @@ CHECKS = {
          "Every fully parenthesised expression tree up to 4 (thorough 5) leaves over a literal ladder (integers, decimals, exponent forms, huge/tiny magnitudes and each percent literal next to its plain twin) and all five operators is evaluated by the real parser+evaluator and compared with an independent exact evaluator run on the generating tree; every operator sequence of length 1..4 (thorough 5) is also written without parentheses and compared with the tree the documented precedence table prescribes; exhaustive within the stated bound.",
          "num::BigRational is exact; sizes between the ladder rungs behave like the rungs; blank layout is C06's subject.", "3 C01"),
  "C02": ("exploration", E1 + ": all ordered pairs of a unit-spelling set x {+,-,to} vs dimension vectors of an independent unit table",
-         "Every ordered pair of ~450 (thorough ~1050) unit spellings (all units, prefixed, products/quotients, powered and prefixed-and-powered, spellings that cancel over the same or over different unit names, spellings that contribute/cancel/re-contribute a base) under + - and to, with non-zero and with zero-valued (written and computed) operands, spellings with one unit on both sides of the slash under different powers (m/m^2), computed operands (every a*b/c and a/b*c over ten quantities cast to, added to and subtracted from twelve targets, judged against the reference evaluation of the tree), plus plain-number adoption in both operand orders: Ok iff the independent table gives equal base dimensions, with exact SI value and the cast result expressed in the target unit.",
+         "Every ordered pair of ~450 (thorough ~1050) unit spellings (all units, prefixed, products/quotients, powered and prefixed-and-powered, spellings that cancel over the same or over different unit names, spellings that contribute/cancel/re-contribute a base) under + - and to, with non-zero and with zero-valued (written and computed) operands, spellings with one unit on both sides of the slash under different powers (m/m^2), computed operands (every a*b/c and a/b*c over ten quantities cast to, added to and subtracted from twelve targets, judged against the reference evaluation of the tree), three-operand chains over plain numbers, quantities in one unit and quantities in an incommensurable unit, a plain number cast twice, plus plain-number adoption in both operand orders: Ok iff the independent table gives equal base dimensions, with exact SI value and the cast result expressed in the target unit.",
          "Independent unit table (tables.rs); syntactically cancelling spellings (m/m), computed dimensionless operands and prefixed words the tool rejects are not judged.", "3 C02"),
  "C03": ("exploration", E1 + ": commensurable unit pairs, prefixes, powers, composites vs SI scales, plus table-free conversion laws on the real code",
-         "All ordered pairs per commensurability class x magnitudes, every prefix spelling, powers -3..3, every prefix symbol crossed with every power -3..3 (as source, as target and prefix-to-prefix; thorough: on every non-offset unit of the table, powers to +-5, 12 magnitudes per pair), 2-4 factor composites and composites naming the same units on both sides with differently distributed powers against the table; round-trip, via-unit, unparenthesised cast chains and scaling laws evaluated on the real code only (no table).",
+         "All ordered pairs per commensurability class x magnitudes, every prefix spelling, powers -3..3, every prefix symbol crossed with every power -3..3 (as source, as target and prefix-to-prefix; thorough: on every non-offset unit of the table, powers to +-5, 12 magnitudes per pair), 2-4 factor composites, composites naming the same units on both sides with differently distributed powers and ratio units with a scale but no dimension (min/hr, ft/mi, l/m^3) against the table; round-trip, via-unit, unparenthesised cast chains and scaling laws evaluated on the real code only (no table).",
          "Independent unit table for the direct oracle; the laws need none. Words misread by the unit lexer are left to C05.", "3 C03"),
  "C04": ("exploration", E1 + ": products/quotients/powers of quantities vs SI value and dimension arithmetic",
          "All pairs of 55 quantity spellings (incl. one unit under several prefixes and powers, derived-per-base compounds) under * and / (either side parenthesised), all triples over a core (thorough: over the whole list, plus all quadruples in three groupings over a 10-quantity core), (q)^n for n=-3..3 (thorough -6..6) for every documented unit, one unit under two prefixes and two powers on either side of * and /, zero-valued quantities (written and computed) under ^n, * and /; SI value and base dimensions must equal the reference evaluation of the tree. A temperature on an offset scale (4 spellings x 3 readings) as a factor or divisor of 8 other quantities in both operand orders must be the product of the operands' SI values under the interval or the absolute reading of the degree.",
@@ -39,7 +39,7 @@ CHECKS = {
          "12 magnitudes x 36 scale-spelling pairs (thorough: also every multiple of 1/8 from -500 to 1000 x the nine scale pairs), all chains up to length 4 (thorough 5), every ordered pair of 21 prefixed scale words (m k n G milli kilo on K, degC, degF) x 5 magnitudes and chains through a prefixed scale, and several casts in one query, sums and differences of two temperatures over all 36 spelling pairs, each also converted afterwards to every scale (with and without parentheses), and every placement of a scale that is not alone with power one (powers, products, quotients) - the latter must be refused or treated as an interval.",
          "The affine formulas are written out in the harness.", "3 C09"),
  "C11": ("exploration", E1 + ": token soups, unicode strings and 1/2-edit neighbourhoods of seeds; no panic/abort/hang, located errors; both build profiles and the real binary on a stride",
-         "All token sequences <=3 (4) over 46 tokens (incl. values that are zero only after a unit conversion) x joiner patterns, all unicode strings <=4 (5) over 30 code points, every 1-edit (thorough 2-edit) of 66 seeds, a repetition/nesting ladder (k up to 257) over 1..2 structural tokens, 14 single-error queries under leading/trailing blanks through the real binary (what it underlines must be the text the library's range selects), in release and debug-assertion builds; each result must display or be an error with an in-bounds char-boundary range that the diagnostic renderer accepts; worker processes attribute aborts and hangs to the input.",
+         "All token sequences <=3 (4) over 46 tokens (incl. values that are zero only after a unit conversion) x joiner patterns, all unicode strings <=4 (5) over 30 code points, every 1-edit (thorough 2-edit) of 66 seeds, a repetition/nesting ladder (k up to 257) over 1..2 structural tokens, a two-byte character across 14 byte boundaries from 16 to 8192 in fact phrases and unit words, 14 single-error queries under leading/trailing blanks through the real binary (what it underlines must be the text the library's range selects), in release and debug-assertion builds; each result must display or be an error with an in-bounds char-boundary range that the diagnostic renderer accepts; worker processes attribute aborts and hangs to the input.",
          "Inputs outside the statement's numeric bounds (>3-digit exponents, >2-digit powers) or with possibly astronomically large values are counted and skipped.", "3 C11"),
  "C12": ("exploration", E1 + ": all strings up to length 5 (thorough 6) over a 40-symbol alphabet through lexer and parser",
          "105 M (thorough 4.2 G) strings, every sequence of up to 6 whole tokens over a 12-token alphabet (3 M), every string up to length 3 parsed right after a unit string with trailing content went through str::parse::<Compound> on the same thread, and every sequence of 1..3 tokens repeated k times / nested k deep in ten wrappers for k up to 257: tokens non-empty, on char boundaries, tile the input; the tree's token leaves equal the token stream.",
@@ -48,7 +48,7 @@ CHECKS = {
          "Commutativity over pairs of ~140 literal quantities (incl. prefixed bases, one unit under several prefixes and powers, derived-per-base compounds) and ~770 facts (all multi-word phrases plus every typeable single-word fact that is not a unit word), a-a, a/a for all, associativity and distributivity over a core of triples, commutativity of products with a temperature on an offset scale (5 readings x 24 quantities and each other); both sides compared in SI normal form within one Db instance.",
          "Independent unit table for the SI normal form; plain-number adoption and zero divisors are outside the laws' preconditions.", "3 C13"),
  "C14": ("model_checking", "stateless depth-first schedule exploration of the real index build under a controlled scheduler at tantivy's layout-determining seams (vendored tantivy with gates), plus session histories mem / disk-first / disk-reopen / disk-rebuild",
-         "Every assignment of documents to indexing workers (symmetry-reduced), every order of equally sized segments, merge timing and merge input order is enumerated on the real Db::in_memory()/Db::open() over reduced data sets of shipped constants that tie for the ambiguous probes; every session history of up to 2 (thorough 4) sessions over {in-memory build, on-disk session, on-disk session over other data} is explored the same way (a disk session after another is a reopen or a rebuild); every session of every execution must answer the probe set like the reference execution (and own-word probes must find their constant); on-disk layouts are read back from the real index; the full shipped data runs under corner schedules, each followed by every single deviation at every tie-order and merge-timing point (so a build that leaves several equal-sized segments is explored in every segment order). Probes: every constant's full word set, every distinct single word of the data set, word prefixes of length 1..3 and ordered pairs of word initials; every probe is asked twice per session (one database answering differently is a violation in itself).",
+         "Every assignment of documents to indexing workers (symmetry-reduced), every order of equally sized segments, merge timing and merge input order is enumerated on the real Db::in_memory()/Db::open() over reduced data sets of shipped constants that tie for the ambiguous probes; every session history of up to 2 (thorough 4) sessions over {in-memory build, on-disk session, on-disk session over other data} is explored the same way (a disk session after another is a reopen or a rebuild); every session of every execution must answer the probe set like the reference execution (and own-word probes must find their constant); on-disk layouts are read back from the real index; the full shipped data runs under corner schedules, each followed by every single deviation at every tie-order and merge-timing point (so a build that leaves several equal-sized segments is explored in every segment order). Probes: every constant's full word set, every distinct single word of the data set, word prefixes of length 1..3 and ordered pairs of word initials; every probe is asked twice per session (one database answering differently is a violation in itself); an answer is the values, the words and description of each described constant and what its source resolves to in that session.",
          "Layout depends on scheduling only through the four gated seams (argued in DESIGN 2.6, cross-checked by reading real on-disk layouts back); nondeterminism that does not pass through those seams is not enumerated, only observed through the run's independent builds and double-asked probes; vendored tantivy = registry 0.19.2 + vendor/tantivy-gates.patch (checked in setup); hook H1 (asset directory seam) supplies the reduced data sets.", "3 C14"),
  "C15": ("fault_enumeration", "exhaustive crash-point (and torn-write) enumeration of the real start-up under an LD_PRELOAD fault injector, crossed with prior directory states and followed by crash-free starts",
          "The real Db::open() is killed before every one of its file-system mutations (every point; thorough also torn writes and two-crash histories: every pair of crash points from the absent prior) from each prior directory state; after each crash: meta.json current => index complete (checked with tantivy independently), and two crash-free starts must answer the probe set exactly like a fresh in-memory database. Every listed prior state (absent, other major version, next patch version / build suffix over an index with other content, an index in another build's layout under seven near-current version strings, other data, missing/truncated/garbage (text and non-UTF-8) metadata incl. every proper prefix, 18 well-formed JSON documents of the wrong shape, missing index directory) is also started crash-free.",
